@@ -6,7 +6,7 @@ from verifkit import Infra, read_ndjson, write_ndjson
 
 PROBLEMS = [("restart_error", "restart-failed"), ("incomplete", "best-incomplete"), ("state_diff", "state-differs"),
             ("logs_diff", "logdb-differs"), ("finality_contradiction", "finality-contradiction"),
-            ("diverged", "resume-diverges"), ("import_errors", "import-error-after-crash")]
+            ("diverged", "resume-diverges"), ("import_errors", "import-error-after-crash"), ("tx_lookup", "tx-lookup-inconsistent")]
 
 
 def run_stream(ctx, binp, seed, blocks, maxcuts, double):
@@ -26,6 +26,10 @@ def run_stream(ctx, binp, seed, blocks, maxcuts, double):
     d = json.load(open(os.path.join(out, "cuts.json")))
     events = read_ndjson(os.path.join(out, "trace.ndjson"))
     how = dict(seed=seed, blocks=blocks, maxcuts=maxcuts, double=double)
+    if d.get("engine_contract"):
+        # thor's LevelEngine.Bulk no longer is one atomic batch: the writes the import relies on can be split by a crash
+        rp = ctx.save_replay("seed%d-engine-contract.json" % seed, {"how": how, "engine_contract": d["engine_contract"]})
+        ctx.report("bulk-not-atomic", "muxdb/engine bulk contract (nothing visible before Write unless auto-flush) violated: " + d["engine_contract"], rp)
     flagged = set()
     for c in d["cuts"]:
         for key, sig in PROBLEMS:
@@ -34,7 +38,7 @@ def run_stream(ctx, binp, seed, blocks, maxcuts, double):
                 phases = c.get("crash_phases") or [c["phase"]]
                 phase = "q" if "q" in phases else phases[0]
                 signature = "%s:%s" % (sig, phase)
-                rp = ctx.save_replay("seed%d-cut%d-%s.json" % (seed, c["k"], sig), {"how": how, "cut": c})
+                rp = ctx.save_replay("seed%d-cut%d%s-%s.json" % (seed, c["k"], "-" + c["variant"] if c.get("variant") else "", sig), {"how": how, "cut": c})
                 ctx.report(signature, "seed %d cut %d (crash before a '%s' write of block %d): %s: %s" %
                            (seed, c["k"], c["phase"], c["inflight"], sig, c[key]), rp)
     # ---- every recorded run must be a behaviour of ImportCrash.tla
@@ -43,6 +47,9 @@ def run_stream(ctx, binp, seed, blocks, maxcuts, double):
         if e["e"] == "Reset":
             runs.append([])
         runs[-1].append(e)
+    # the sibling-first variants deliver a different order after the restart than the spec's Resume: they are judged by
+    # the driver's oracles only (complete best, log db = chain, tx lookups, convergence), not by the trace spec
+    runs = [r for r in runs if not r[0].get("novalidate")]
     pending = list(range(len(runs)))
     guard = 0
     while pending:
